@@ -6,7 +6,7 @@ FLAGS = ["--bounds-check", "--pointer-check", "--signed-overflow-check", "--conv
 R = [(r"NearestNeighbors<_T>::distFun_\(data_\[i\], data\)", "distIdx(i)", 0), (r"std::size_t", "size_t", 0), (r"data_\.size\(\)", "data__size", 0), (r"data_\.empty\(\)", "(data__size == 0)", 0),
      (r"return data_\[pos\];", "return pos;", 0), (r'throw Exception\("[^"]*"\);', "{ EXC(); return 0; }", 0),
      (r"nbh\.clear\(\);", "nbh_size = 0;", 0),
-     (r"for \(const auto &d : data_\)\s*if \(NearestNeighbors<_T>::distFun_\(d, data\) <= radius\)\s*nbh\.push_back\(d\);", "for (size_t di_ = 0; di_ < data__size; ++di_) if (distIdx(di_) <= radius) NBH_PUSH(di_);", 0),
+     (r"for \(const auto &d : data_\)\s*if \(NearestNeighbors<_T>::distFun_\(d, data\) (<=|<|>=|>) radius\)\s*nbh\.push_back\(d\);", r"for (size_t di_ = 0; di_ < data__size; ++di_) if (distIdx(di_) \1 radius) NBH_PUSH(di_);", 0),
      (r"std::sort\(nbh\.begin\(\), nbh\.end\(\), ElemSort\(data, NearestNeighbors<_T>::distFun_\)\);", "NBH_SORT();", 0),
      (r"data_\[i\] == data", "EQ[i]", 0), (r"data_\.erase\(data_\.begin\(\) \+ i\);", "DATA_ERASE((size_t)i);", 0)]
 SRC = [
@@ -31,7 +31,7 @@ STUBS = ["distIdx", "NBH_PUSH", "NBH_SORT", "DATA_ERASE"]
 
 
 def U(name, entry, enforce, fn, can=()):
-    return dict(name=name, template="C10/linear.c", entry=entry, sources=SRC, enforce=[enforce], replace=STUBS, flags=FLAGS, level="proof", bound="<= 64 stored elements", expect_loops=1,
+    return dict(name=name, template="C10/linear.c", entry=entry, sources=SRC, needs=[enforce[3:]], enforce=[enforce], replace=STUBS, flags=FLAGS, level="proof", bound="<= 64 stored elements", expect_loops=1,
                 functions=[fn], canaries=list(can), backend="minisat", confirm=dict(unwind=5, defines={"MAXN": 4}), timeout=900)
 
 
